@@ -213,6 +213,97 @@ Section Specs.
     exists s'. splits; auto. destruct HI' as [HT _]. exact (cput_none_storage_full nhash s' nd HT Hp).
   Qed.
 
+  Theorem substm_step_fuel_bound mr f rf vals :
+    reachable mr -> liveh mr f rf ->
+    exists bound, forall fuel, (bound <= fuel)%nat -> mstep fuel mr (HSubstM f vals) = None ->
+      exists s', @sext sops (store mr) s' /\ @Inv sops s' /\ storage_full node (tbl s').
+  Proof.
+    intros HR Lf.
+    destruct (live_denotes nhash khash bmask cmask0 smask0 capacity cap_ok mr f rf HR Lf) as (F & tf & Vf & _).
+    exists (height tf + 1)%nat. intros fuel Hfuel Hs.
+    destruct mr as [m rs]. destruct (good_of _ HR) as (HI & HC & _). unfold liveh in *; cbn [fst snd store] in *.
+    unfold Reachable.mstep, step in Hs. rewrite Lf in Hs. destruct (nodupb (map fst vals)); [|discriminate].
+    unfold drop2 in Hs.
+    match type of Hs with match (match ?X with _ => _ end) with _ => _ end = _ => destruct X as [[[s1 m1] r1]|] eqn:E; [discriminate|] end. clear Hs.
+    destruct (@smulti_terminates sops sok MS vals tf fuel (core m) mempty rf Hfuel HI (fun k r Hk => ltac:(rewrite mget_empty in Hk; discriminate)) Vf E)
+      as (s' & nd & Ex & HI' & Hp).
+    exists s'. splits; auto. destruct HI' as [HT _]. exact (cput_none_storage_full nhash s' nd HT Hp).
+  Qed.
+  Theorem cofcube_step_fuel_bound mr f rf cube :
+    reachable mr -> liveh mr f rf ->
+    exists bound, forall fuel, (bound <= fuel)%nat -> mstep fuel mr (HCofCube f cube) = None ->
+      exists s', @sext sops (store mr) s' /\ @Inv sops s' /\ storage_full node (tbl s').
+  Proof.
+    intros HR Lf.
+    destruct (live_denotes nhash khash bmask cmask0 smask0 capacity cap_ok mr f rf HR Lf) as (F & tf & Vf & _).
+    exists (height tf + length cube + 1)%nat. intros fuel Hfuel Hs.
+    destruct mr as [m rs]. destruct (good_of _ HR) as (HI & HC & _). unfold liveh in *; cbn [fst snd store] in *.
+    unfold Reachable.mstep, step in Hs. rewrite Lf in Hs. destruct (asc_cubeb 0 cube) eqn:Hd; [|discriminate].
+    unfold drop2 in Hs.
+    match type of Hs with match (match ?X with _ => _ end) with _ => _ end = _ => destruct X as [[[s1 m1] r1]|] eqn:E; [discriminate|] end. clear Hs.
+    destruct (@ccube_terminates sops sok MQ cube (height tf + length cube) fuel Hfuel (core m) mempty rf cube tf 0%N (le_n _) HI
+                (fun k r Hk => ltac:(rewrite mget_empty in Hk; discriminate)) Vf (ex_intro _ [] eq_refl) (asc_cubeb_ok _ _ Hd) E)
+      as (s' & nd & Ex & HI' & Hp).
+    exists s'. splits; auto. destruct HI' as [HT _]. exact (cput_none_storage_full nhash s' nd HT Hp).
+  Qed.
+
+  (* n-ary folds and expression trees *)
+  Lemma trees_level (tts : list tree) : exists L, Forall (allle L) tts.
+  Proof.
+    induction tts as [|t tts (L & HL)]; [exists 0%N; constructor|]. exists (N.max L (maxvar t)). constructor.
+    - eapply allle_mono; [|apply allle_maxvar]. lia.
+    - eapply Forall_impl; [|exact HL]. intros a Ha. eapply allle_mono; [|exact Ha]. lia.
+  Qed.
+  Theorem many_step_fuel_bound mr disj l rl :
+    reachable mr -> fetch_all (snd mr) l = Some rl ->
+    exists bound, forall fuel, (bound <= fuel)%nat -> mstep fuel mr (HMany disj l) = None ->
+      exists s', @sext sops (store mr) s' /\ @Inv sops s' /\ storage_full node (tbl s').
+  Proof.
+    intros HR Fl. destruct mr as [m rs]. destruct (good_of _ HR) as (HI & HC & _ & Hg). cbn [fst snd store] in *.
+    destruct (fetch_all_F2 nhash khash _ _ Hg _ _ Fl) as (tts & Hf). destruct (trees_level tts) as (L & HL).
+    exists (3 * N.to_nat (L + 1) + 3)%nat. intros fuel Hfuel Hs.
+    unfold Reachable.mstep, step in Hs. rewrite Fl in Hs.
+    match type of Hs with match ?X with _ => _ end = _ => destruct X as [[s1 r1]|] eqn:E; [discriminate|] end. clear Hs.
+    assert (Hst : @Stops sops (core m)).
+    { destruct disj.
+      - exact (@many_terminates sops sok true L fuel Hfuel rl tts (core m) zero Leaf HI HC (V_zero _) I Hf HL E).
+      - exact (@many_terminates sops sok false L fuel Hfuel rl tts (core m) one Leaf HI HC (V_one _) I Hf HL E). }
+    destruct Hst as (s' & nd & Ex & HI' & Hp).
+    exists s'. splits; auto. destruct HI' as [HT _]. exact (cput_none_storage_full nhash s' nd HT Hp).
+  Qed.
+  Lemma terms_lev_mono (s : state) L L' x : (L <= L')%N -> @terms_lev sops s L x -> @terms_lev sops s L' x.
+  Proof.
+    intro H. induction x; cbn; [intros (t & Vt & Lt); exists t; split; [exact Vt|eapply allle_mono; eauto]|auto|intuition|intuition|intuition].
+  Qed.
+  Lemma eterms_level (s : state) x : eterms_ok nhash khash s x -> exists L, @terms_lev sops s L x.
+  Proof.
+    induction x as [t|a IHa|a IHa b IHb|a IHa b IHb|a IHa b IHb]; cbn.
+    - intros (tr & Vt). exists (maxvar tr), tr. split; [exact Vt|apply allle_maxvar].
+    - exact IHa.
+    - intros [Ha Hb]. destruct (IHa Ha) as (La & Ta). destruct (IHb Hb) as (Lb & Tb). exists (N.max La Lb).
+      split; eapply terms_lev_mono; eauto; lia.
+    - intros [Ha Hb]. destruct (IHa Ha) as (La & Ta). destruct (IHb Hb) as (Lb & Tb). exists (N.max La Lb).
+      split; eapply terms_lev_mono; eauto; lia.
+    - intros [Ha Hb]. destruct (IHa Ha) as (La & Ta). destruct (IHb Hb) as (Lb & Tb). exists (N.max La Lb).
+      split; eapply terms_lev_mono; eauto; lia.
+  Qed.
+  Theorem expr_step_fuel_bound mr xe ex :
+    reachable mr -> xlate (snd mr) xe = Some ex ->
+    exists bound, forall fuel, (bound <= fuel)%nat -> mstep fuel mr (HExpr xe) = None ->
+      exists s', @sext sops (store mr) s' /\ @Inv sops s' /\ storage_full node (tbl s').
+  Proof.
+    intros HR Hx. destruct mr as [m rs]. destruct (good_of _ HR) as (HI & HC & _ & Hg). cbn [fst snd store] in *.
+    destruct (eterms_level (core m) ex (xlate_terms nhash khash _ _ Hg _ _ Hx)) as (L & HT).
+    exists (3 * N.to_nat (L + 1) + 3)%nat. intros fuel Hfuel Hs.
+    unfold Reachable.mstep, step in Hs. rewrite Hx in Hs.
+    pose proof (@eval_terminates sops sok L fuel Hfuel ex (core m) HI HC HT) as Hev.
+    assert (E : @eval sops fuel (core m) ex = None).
+    { match type of Hs with match ?X with _ => _ end = _ => destruct X as [[s1 r1]|] eqn:E0; [discriminate|exact E0] end. }
+    clear Hs. rewrite E in Hev.
+    destruct Hev as (s' & nd & Ex & HI' & Hp).
+    exists s'. splits; auto. destruct HI' as [HT' _]. exact (cput_none_storage_full nhash s' nd HT' Hp).
+  Qed.
+
   (* a handle-producing line whose arguments are all live and whose precondition holds is not skipped; what it returns: *)
   Ltac open_step HR Hs m rs HI HC :=
     destruct (good_of _ HR) as (HI & HC & _); unfold liveh, store in *; cbn [fst snd] in *;
@@ -576,6 +667,130 @@ Section Specs.
              end; try (injection Hs as <- <-; reflexivity).
   Qed.
   (* `size` may only add an entry to the size cache: the node store and the registers are untouched *)
+  (* ---------------- every query returns (C16 / C13 / C14): they allocate nothing, so nothing can stop them ---------------- *)
+  Theorem satcount_step_returns mr f rf n : reachable mr -> liveh mr f rf ->
+    exists bound, forall fuel, (bound <= fuel)%nat -> exists c, mstep fuel mr (HSatCount f n) = Some (mr, ONum c).
+  Proof.
+    intros HR Lf. destruct (live_denotes nhash khash bmask cmask0 smask0 capacity cap_ok mr f rf HR Lf) as (F & tf & Vf & _).
+    exists (height tf + 1)%nat. intros fuel Hfuel. destruct mr as [m rs]. destruct (good_of _ HR) as (HI & _).
+    unfold liveh in *; cbn [fst snd store] in *.
+    pose proof (@satc_returns sops sok MN (2 ^ n) tf fuel (core m) mempty rf Hfuel HI Vf) as Hne.
+    destruct (@satc sops MN fuel (core m) mempty rf (2 ^ n)) as [[m1 c]|] eqn:E; [|contradiction]. exists c.
+    unfold Reachable.mstep, step. rewrite Lf. unfold sat_count.
+    match goal with |- context[match ?X with Some _ => _ | None => _ end] => replace X with (Some (m1, c)) by (symmetry; exact E) end. reflexivity.
+  Qed.
+  Theorem onesat_step_returns mr f rf : reachable mr -> liveh mr f rf ->
+    exists bound, forall fuel, (bound <= fuel)%nat -> exists p, mstep fuel mr (HOneSat f) = Some (mr, OPath p).
+  Proof.
+    intros HR Lf. destruct (live_denotes nhash khash bmask cmask0 smask0 capacity cap_ok mr f rf HR Lf) as (F & tf & Vf & _).
+    exists (height tf + 1)%nat. intros fuel Hfuel. destruct mr as [m rs]. destruct (good_of _ HR) as (HI & _).
+    unfold liveh in *; cbn [fst snd store] in *.
+    pose proof (@one_sat_returns sops sok tf fuel (core m) rf [] Hfuel HI Vf) as Hne.
+    destruct (@one_sat sops fuel (core m) rf []) as [p|] eqn:E; [|contradiction]. exists p.
+    unfold Reachable.mstep, step. rewrite Lf.
+    match goal with |- context[match ?X with Some _ => _ | None => _ end] => replace X with (Some p) by (symmetry; exact E) end. reflexivity.
+  Qed.
+  Theorem paths_step_returns mr f rf : reachable mr -> liveh mr f rf ->
+    exists bound, forall fuel, (bound <= fuel)%nat -> exists ps, mstep fuel mr (HPaths f) = Some (mr, OPaths ps).
+  Proof.
+    intros HR Lf. destruct (live_denotes nhash khash bmask cmask0 smask0 capacity cap_ok mr f rf HR Lf) as (F & tf & Vf & _).
+    exists (W [tf] + 1)%nat. intros fuel Hfuel. destruct mr as [m rs]. destruct (good_of _ HR) as (HI & _).
+    unfold liveh in *; cbn [fst snd store] in *.
+    assert (HS : @SOK sops (core m) [(rf, [])] [tf]) by (constructor; [exact Vf|constructor]).
+    pose proof (@pall_returns sops sok fuel fuel (core m) [(rf, [])] [tf] HI HS Hfuel Hfuel) as Hne.
+    destruct (@pall sops fuel fuel (core m) [(rf, [])]) as [ps|] eqn:E; [|contradiction]. exists ps.
+    unfold Reachable.mstep, step. rewrite Lf.
+    match goal with |- context[match ?X with Some _ => _ | None => _ end] => replace X with (Some ps) by (symmetry; exact E) end. reflexivity.
+  Qed.
+  Theorem bracket_step_returns mr f rf : reachable mr -> liveh mr f rf ->
+    exists bound, forall fuel, (bound <= fuel)%nat -> exists t, mstep fuel mr (HBracket f) = Some (mr, OBracket t).
+  Proof.
+    intros HR Lf. destruct (live_denotes nhash khash bmask cmask0 smask0 capacity cap_ok mr f rf HR Lf) as (F & tf & Vf & _).
+    exists (height tf + 1)%nat. intros fuel Hfuel. destruct mr as [m rs]. destruct (good_of _ HR) as (HI & _).
+    unfold liveh in *; cbn [fst snd store] in *.
+    pose proof (@to_bracket_returns sops sok tf fuel (core m) rf [] Hfuel HI Vf) as Hne.
+    destruct (@to_bracket sops fuel (core m) rf []) as [[t vis]|] eqn:E; [|contradiction]. exists t.
+    unfold Reachable.mstep, step. rewrite Lf.
+    match goal with |- context[match ?X with Some _ => _ | None => _ end] => replace X with (Some (t, vis)) by (symmetry; exact E) end. reflexivity.
+  Qed.
+  (* descendants: fuel three times the table capacity plus the number of roots *)
+  Lemma cells_below_cap (s : state) : cTInv nhash s -> forall i n, ccell s i = Some n -> In i (nrange (N.to_nat (cap (tbl s))) 0%N).
+  Proof.
+    intros (HA & _) i n Hc. apply ccell_some in Hc. destruct Hc as (Ho & _ & _). apply nrange_in.
+    destruct (N.le_gt_cases i (last_index (tbl s))) as [Hle|Hgt]; [pose proof (a_cap _ _ HA); lia|]. exfalso. exact (a_above _ _ HA i Hgt Ho).
+  Qed.
+  Theorem desc_step_returns mr l rl : reachable mr -> fetch_all (snd mr) l = Some rl ->
+    exists bound, forall fuel, (bound <= fuel)%nat -> exists vis, mstep fuel mr (HDesc l) = Some (mr, OList vis).
+  Proof.
+    intros HR Fl. destruct mr as [m rs]. destruct (good_of _ HR) as (HI & _ & _ & Hg). cbn [fst snd] in *.
+    set (univ := nrange (N.to_nat (cap (tbl (core m)))) 0%N).
+    exists (3 * length univ + length rl + 1)%nat. intros fuel Hfuel.
+    assert (Hne : @bfs sops fuel (core m) [1%N] (map idx rl) <> None).
+    { apply (@bfs_returns sops univ); [apply closed_of_inv; exact HI|left; reflexivity|exact (cells_below_cap (core m) (proj1 HI))| |].
+      - intros i Hi. apply in_map_iff in Hi. destruct Hi as (r & <- & Hr).
+        destruct (fetch_all_good nhash khash _ _ Hg _ _ Fl r Hr) as (t & Vt). eapply (okidx_of_V nhash khash); eauto.
+      - rewrite map_length. pose proof (unv_le univ [1%N]). lia. }
+    destruct (@bfs sops fuel (core m) [1%N] (map idx rl)) as [vis|] eqn:E; [|contradiction]. exists vis.
+    unfold Reachable.mstep, step. rewrite Fl. unfold descendants.
+    match goal with |- context[match ?X with Some _ => _ | None => _ end] => replace X with (Some vis) by (symmetry; exact E) end. reflexivity.
+  Qed.
+
+  Theorem size_step_returns mr f rf : reachable mr -> liveh mr f rf ->
+    exists bound, forall fuel, (bound <= fuel)%nat -> mstep fuel mr (HSize f) <> None.
+  Proof.
+    intros HR Lf. destruct mr as [m rs]. destruct (good_of _ HR) as (HI & _ & _ & Hg). unfold liveh in *; cbn [fst snd] in *.
+    set (univ := nrange (N.to_nat (cap (tbl (core m)))) 0%N).
+    exists (3 * length univ + 1 + 1)%nat. intros fuel Hfuel.
+    assert (Hne : @bfs sops fuel (core m) [1%N] (map idx [rf]) <> None).
+    { apply (@bfs_returns sops univ); [apply closed_of_inv; exact HI|left; reflexivity|exact (cells_below_cap (core m) (proj1 HI))| |].
+      - intros i [<-|[]]. destruct (fetch_good nhash khash _ _ _ _ Hg Lf) as (t & Vt). eapply (okidx_of_V nhash khash); eauto.
+      - cbn [map length]. pose proof (unv_le univ [1%N]). lia. }
+    unfold Reachable.mstep, step. rewrite Lf. unfold size_op. destruct (sc_get (szc m) rf); [discriminate|]. unfold descendants.
+    destruct (@bfs sops fuel (core m) [1%N] (map idx [rf])) as [vis|] eqn:E; [|contradiction].
+    match goal with |- context[match ?X with Some _ => _ | None => _ end] => replace X with (Some vis) by (symmetry; exact E) end. discriminate.
+  Qed.
+
+  (* collect_garbage always completes (fuel three times the table capacity plus the number of roots) *)
+  Theorem gc_step_returns mr roots rl : reachable mr -> fetch_all (snd mr) roots = Some rl ->
+    exists bound, forall fuel, (bound <= fuel)%nat -> mstep fuel mr (HGc roots) <> None.
+  Proof.
+    intros HR Fl. destruct mr as [m rs]. destruct (good_of _ HR) as (HI & _ & _ & Hg). cbn [fst snd] in *.
+    set (univ := nrange (N.to_nat (cap (tbl (core m)))) 0%N).
+    exists (3 * length univ + length rl + 1)%nat. intros fuel Hfuel.
+    assert (Hlen : length univ = N.to_nat (cap (tbl (core m)))).
+    { unfold univ. generalize (N.to_nat (cap (tbl (core m)))) 0%N. induction n as [|n IHn]; intro s0; cbn [nrange length]; [reflexivity|now rewrite IHn]. }
+    assert (Hne : @bfs sops fuel (core m) [1%N] (map idx rl) <> None).
+    { apply (@bfs_returns sops univ); [apply closed_of_inv; exact HI|left; reflexivity|exact (cells_below_cap (core m) (proj1 HI))| |].
+      - intros i Hi. apply in_map_iff in Hi. destruct Hi as (r & <- & Hr).
+        destruct (fetch_all_good nhash khash _ _ Hg _ _ Fl r Hr) as (t & Vt). eapply (okidx_of_V nhash khash); eauto.
+      - rewrite map_length. pose proof (unv_le univ [1%N]). lia. }
+    destruct (@bfs sops fuel (core m) [1%N] (map idx rl)) as [vis|] eqn:E; [|contradiction].
+    assert (Ed : @descendants sops fuel (core m) rl = Some vis) by exact E.
+    destruct (gc_total nhash khash fuel (core m) rl vis HI ltac:(lia) Ed) as (s' & Eg).
+    unfold Reachable.mstep, step. rewrite Fl.
+    match goal with |- context[match ?X with Some _ => _ | None => _ end] => replace X with (Some vis) by (symmetry; exact Ed) end.
+    rewrite Eg. discriminate.
+  Qed.
+
+  Theorem dot_step_returns mr l rl : reachable mr -> fetch_all (snd mr) l = Some rl ->
+    exists bound, forall fuel, (bound <= fuel)%nat -> exists recs, mstep fuel mr (HDot l) = Some (mr, ODot recs).
+  Proof.
+    intros HR Fl. destruct mr as [m rs]. destruct (good_of _ HR) as (HI & _ & _ & Hg). cbn [fst snd] in *.
+    set (univ := nrange (N.to_nat (cap (tbl (core m)))) 0%N).
+    exists (3 * length univ + length rl + 1)%nat. intros fuel Hfuel.
+    assert (Hroots : forall r, In r rl -> @okidx sops (core m) (idx r)).
+    { intros r Hr. destruct (fetch_all_good nhash khash _ _ Hg _ _ Fl r Hr) as (t & Vt). eapply (okidx_of_V nhash khash); eauto. }
+    assert (Hne : @bfs sops fuel (core m) [1%N] (map idx rl) <> None).
+    { apply (@bfs_returns sops univ); [apply closed_of_inv; exact HI|left; reflexivity|exact (cells_below_cap (core m) (proj1 HI))| |].
+      - intros i Hi. apply in_map_iff in Hi. destruct Hi as (r & <- & Hr). auto.
+      - rewrite map_length. pose proof (unv_le univ [1%N]). lia. }
+    destruct (@bfs sops fuel (core m) [1%N] (map idx rl)) as [vis|] eqn:E; [|contradiction].
+    assert (Ed : @descendants sops fuel (core m) rl = Some vis) by exact E.
+    destruct (@dot_total sops sok fuel (core m) rl vis HI Hroots Ed) as (recs & Er). exists recs.
+    unfold Reachable.mstep, step. rewrite Fl.
+    match goal with |- context[match ?X with Some _ => _ | None => _ end] => replace X with (Some recs) by (symmetry; exact Er) end. reflexivity.
+  Qed.
+
   Theorem size_pure mr f fuel mr' x : mstep fuel mr (HSize f) = Some (mr', x) -> store mr' = store mr /\ snd mr' = snd mr.
   Proof.
     intros Hs. destruct mr as [m rs]. unfold Reachable.mstep, step in Hs. destruct (fetch rs f) as [a|]; [|injection Hs as <- <-; auto].
@@ -778,6 +993,117 @@ Section Specs.
       assert (Hm : memN (idx r0) vis = true) by (apply memN_spec; destruct (snd a); exact Hin). now rewrite Hm.
     - intros r t Vt Hin. eapply (Hsurv vis Hd); eauto. destruct Hin as [?|Hin]; [auto|right; now apply memN_spec].
     - intro r. apply sc_get_clear.
+  Qed.
+
+  (* ================= progress: the only way ANY operation fails to produce its result is a full node table ================= *)
+  Definition StorageFull (mr : mstate * regs) : Prop :=
+    exists s', @sext sops (store mr) s' /\ @Inv sops s' /\ storage_full node (tbl s').
+  Lemma stops_full (s : state) : @Stops sops s -> exists s', @sext sops s s' /\ @Inv sops s' /\ storage_full node (tbl s').
+  Proof.
+    intros (s' & nd & Ex & HI' & Hp). exists s'. splits; auto. destruct HI' as [HT _]. exact (cput_none_storage_full nhash s' nd HT Hp).
+  Qed.
+  (* for every reachable state and EVERY operation line there is a fuel bound from which on the step yields no result only if
+     the node table filled up on the way (the crate's "Storage is full" panic): no operation of the model loops, gets stuck
+     on a malformed argument (those lines are skipped) or fails for any other reason *)
+  Theorem mstep_progress mr o : reachable mr ->
+    exists bound, forall fuel, (bound <= fuel)%nat -> mstep fuel mr o = None -> StorageFull mr.
+  Proof.
+    intro HR. unfold StorageFull.
+    assert (Triv : forall P : Prop, (forall fuel, mstep fuel mr o <> None) -> exists bound : nat, forall fuel, (bound <= fuel)%nat -> mstep fuel mr o = None -> P).
+    { intros P H. exists O. intros fuel _ Hs. exfalso. exact (H fuel Hs). }
+    assert (Ret : forall (P : Prop) (Q : nat -> Prop), (exists bound, forall fuel, (bound <= fuel)%nat -> Q fuel) -> (forall fuel, Q fuel -> mstep fuel mr o <> None) ->
+               exists bound : nat, forall fuel, (bound <= fuel)%nat -> mstep fuel mr o = None -> P).
+    { intros P Q (b & Hb) HQ. exists b. intros fuel Hf Hs. exfalso. exact (HQ fuel (Hb fuel Hf) Hs). }
+    destruct mr as [m rs]. pose proof (good_of _ HR) as (HI & HC & _ & Hg). cbn [store fst snd] in *.
+    destruct o as [b|v|v lo hi|f g h|op f g|f|disj l|cl l|xe|f v b|f vals|f cube|f v g|f g|f g|f|f|hi f v|f g h|f g|f|l|f n|f|f|f|l|roots].
+    - (* const *) apply Triv. intros fuel. unfold Reachable.mstep, step. discriminate.
+    - (* var *) exists O. intros fuel _ Hs. unfold Reachable.mstep, step in Hs. destruct (0 <? v)%N; [|discriminate].
+      unfold mk_var in Hs. match type of Hs with match ?X with _ => _ end = _ => destruct X as [[s1 r1]|] eqn:E; [discriminate|] end.
+      apply stops_full. exact (@mk_node_total sops (core m) v zero one HI E).
+    - (* node *) exists O. intros fuel _ Hs. unfold Reachable.mstep, step in Hs.
+      destruct (fetch rs lo) as [a|]; [|discriminate]. destruct (fetch rs hi) as [b|]; [|discriminate].
+      destruct ((0 <? v)%N && below nhash khash (core m) v a && below nhash khash (core m) v b); [|discriminate].
+      match type of Hs with match ?X with _ => _ end = _ => destruct X as [[s1 r1]|] eqn:E; [discriminate|] end.
+      apply stops_full. exact (@mk_node_total sops (core m) v a b HI E).
+    - (* ite *) destruct (fetch rs f) as [rf|] eqn:Lf; [destruct (fetch rs g) as [rg|] eqn:Lg; [destruct (fetch rs h) as [rh|] eqn:Lh|]|].
+      + exact (ite_step_fuel_bound (m, rs) f g h rf rg rh HR Lf Lg Lh).
+      + apply Triv. intro fuel. unfold Reachable.mstep, step. rewrite Lf, Lg, Lh. discriminate.
+      + apply Triv. intro fuel. unfold Reachable.mstep, step. rewrite Lf, Lg. discriminate.
+      + apply Triv. intro fuel. unfold Reachable.mstep, step. rewrite Lf. discriminate.
+    - (* bin *) destruct (fetch rs f) as [rf|] eqn:Lf; [destruct (fetch rs g) as [rg|] eqn:Lg|].
+      + exact (bin_step_fuel_bound (m, rs) op f g rf rg HR Lf Lg).
+      + apply Triv. intro fuel. unfold Reachable.mstep, step. rewrite Lf, Lg. discriminate.
+      + apply Triv. intro fuel. unfold Reachable.mstep, step. rewrite Lf. discriminate.
+    - (* not *) apply Triv. intro fuel. unfold Reachable.mstep, step. destruct (fetch rs f); discriminate.
+    - (* many *) destruct (fetch_all rs l) as [rl|] eqn:Fl.
+      + exact (many_step_fuel_bound (m, rs) disj l rl HR Fl).
+      + apply Triv. intro fuel. unfold Reachable.mstep, step. rewrite Fl. discriminate.
+    - (* cube / clause *) exists O. intros fuel _ Hs. unfold Reachable.mstep, step in Hs.
+      destruct (distinct_pos l) eqn:D; [|discriminate]. apply andb_prop in D as [D1 D2].
+      match type of Hs with match ?X with _ => _ end = _ => destruct X as [[s1 r1]|] eqn:E; [discriminate|] end.
+      apply stops_full. apply (@build_stops sops sok cl (sort_lits l) 0%N (core m) HI HC); [|exact E].
+      apply sort_asc; [exact (nodupb_ok _ D2)|]. intros y Hy. rewrite forallb_forall in D1. apply N.ltb_lt. apply D1. exact Hy.
+    - (* expr *) destruct (xlate rs xe) as [ex|] eqn:X.
+      + exact (expr_step_fuel_bound (m, rs) xe ex HR X).
+      + apply Triv. intro fuel. unfold Reachable.mstep, step. rewrite X. discriminate.
+    - (* subst *) destruct (fetch rs f) as [rf|] eqn:Lf.
+      + exact (subst_step_fuel_bound (m, rs) f rf v b HR Lf).
+      + apply Triv. intro fuel. unfold Reachable.mstep, step. rewrite Lf. discriminate.
+    - destruct (fetch rs f) as [rf|] eqn:Lf.
+      + exact (substm_step_fuel_bound (m, rs) f rf vals HR Lf).
+      + apply Triv. intro fuel. unfold Reachable.mstep, step. rewrite Lf. discriminate.
+    - destruct (fetch rs f) as [rf|] eqn:Lf.
+      + exact (cofcube_step_fuel_bound (m, rs) f rf cube HR Lf).
+      + apply Triv. intro fuel. unfold Reachable.mstep, step. rewrite Lf. discriminate.
+    - (* compose *) destruct (fetch rs f) as [rf|] eqn:Lf; [destruct (fetch rs g) as [rg|] eqn:Lg|].
+      + exact (compose_step_fuel_bound (m, rs) f g rf rg v HR Lf Lg).
+      + apply Triv. intro fuel. unfold Reachable.mstep, step. rewrite Lf, Lg. discriminate.
+      + apply Triv. intro fuel. unfold Reachable.mstep, step. rewrite Lf. discriminate.
+    - (* constrain *) destruct (fetch rs f) as [rf|] eqn:Lf; [destruct (fetch rs g) as [rg|] eqn:Lg|].
+      + exact (constrain_step_fuel_bound (m, rs) f g rf rg HR Lf Lg).
+      + apply Triv. intro fuel. unfold Reachable.mstep, step. rewrite Lf, Lg. discriminate.
+      + apply Triv. intro fuel. unfold Reachable.mstep, step. rewrite Lf. discriminate.
+    - (* restrict *) destruct (fetch rs f) as [rf|] eqn:Lf; [destruct (fetch rs g) as [rg|] eqn:Lg|].
+      + exact (restrict_step_fuel_bound (m, rs) f g rf rg HR Lf Lg).
+      + apply Triv. intro fuel. unfold Reachable.mstep, step. rewrite Lf, Lg. discriminate.
+      + apply Triv. intro fuel. unfold Reachable.mstep, step. rewrite Lf. discriminate.
+    - (* low *) apply Triv. intro fuel. unfold Reachable.mstep, step. destruct (fetch rs f) as [a|]; [destruct (idx a =? 1)%N|]; discriminate.
+    - (* high *) apply Triv. intro fuel. unfold Reachable.mstep, step. destruct (fetch rs f) as [a|]; [destruct (idx a =? 1)%N|]; discriminate.
+    - (* top_cofactors *) apply Triv. intro fuel. unfold Reachable.mstep, step. destruct (fetch rs f) as [a|]; [|discriminate].
+      match goal with |- (if ?c then _ else _) <> None => destruct c; discriminate end.
+    - (* ite_constant *) destruct (fetch rs f) as [rf|] eqn:Lf; [destruct (fetch rs g) as [rg|] eqn:Lg; [destruct (fetch rs h) as [rh|] eqn:Lh|]|].
+      + apply (Ret _ _ (itec_step_returns (m, rs) f g h rf rg rh HR Lf Lg Lh)). intros fuel (x & Hx). rewrite Hx. discriminate.
+      + apply Triv. intro fuel. unfold Reachable.mstep, step. rewrite Lf, Lg, Lh. discriminate.
+      + apply Triv. intro fuel. unfold Reachable.mstep, step. rewrite Lf, Lg. discriminate.
+      + apply Triv. intro fuel. unfold Reachable.mstep, step. rewrite Lf. discriminate.
+    - (* is_implies *) destruct (fetch rs f) as [rf|] eqn:Lf; [destruct (fetch rs g) as [rg|] eqn:Lg|].
+      + apply (Ret _ _ (implies_step_returns (m, rs) f g rf rg HR Lf Lg)). intros fuel (x & Hx). rewrite Hx. discriminate.
+      + apply Triv. intro fuel. unfold Reachable.mstep, step. rewrite Lf, Lg. discriminate.
+      + apply Triv. intro fuel. unfold Reachable.mstep, step. rewrite Lf. discriminate.
+    - (* size *) destruct (fetch rs f) as [rf|] eqn:Lf.
+      + apply (Ret _ _ (size_step_returns (m, rs) f rf HR Lf)). auto.
+      + apply Triv. intro fuel. unfold Reachable.mstep, step. rewrite Lf. discriminate.
+    - (* descendants *) destruct (fetch_all rs l) as [rl|] eqn:Fl.
+      + apply (Ret _ _ (desc_step_returns (m, rs) l rl HR Fl)). intros fuel (x & Hx). rewrite Hx. discriminate.
+      + apply Triv. intro fuel. unfold Reachable.mstep, step. rewrite Fl. discriminate.
+    - (* sat_count *) destruct (fetch rs f) as [rf|] eqn:Lf.
+      + apply (Ret _ _ (satcount_step_returns (m, rs) f rf n HR Lf)). intros fuel (x & Hx). rewrite Hx. discriminate.
+      + apply Triv. intro fuel. unfold Reachable.mstep, step. rewrite Lf. discriminate.
+    - (* one_sat *) destruct (fetch rs f) as [rf|] eqn:Lf.
+      + apply (Ret _ _ (onesat_step_returns (m, rs) f rf HR Lf)). intros fuel (x & Hx). rewrite Hx. discriminate.
+      + apply Triv. intro fuel. unfold Reachable.mstep, step. rewrite Lf. discriminate.
+    - (* paths *) destruct (fetch rs f) as [rf|] eqn:Lf.
+      + apply (Ret _ _ (paths_step_returns (m, rs) f rf HR Lf)). intros fuel (x & Hx). rewrite Hx. discriminate.
+      + apply Triv. intro fuel. unfold Reachable.mstep, step. rewrite Lf. discriminate.
+    - (* bracket *) destruct (fetch rs f) as [rf|] eqn:Lf.
+      + apply (Ret _ _ (bracket_step_returns (m, rs) f rf HR Lf)). intros fuel (x & Hx). rewrite Hx. discriminate.
+      + apply Triv. intro fuel. unfold Reachable.mstep, step. rewrite Lf. discriminate.
+    - (* dot *) destruct (fetch_all rs l) as [rl|] eqn:Fl.
+      + apply (Ret _ _ (dot_step_returns (m, rs) l rl HR Fl)). intros fuel (x & Hx). rewrite Hx. discriminate.
+      + apply Triv. intro fuel. unfold Reachable.mstep, step. rewrite Fl. discriminate.
+    - (* gc *) destruct (fetch_all rs roots) as [rl|] eqn:Fl.
+      + apply (Ret _ _ (gc_step_returns (m, rs) roots rl HR Fl)). auto.
+      + apply Triv. intro fuel. unfold Reachable.mstep, step. rewrite Fl. discriminate.
   Qed.
 
 End Specs.
